@@ -200,6 +200,9 @@ func genFrame(r *prng.R, spec codecSpec, big bool) ([]mSeries, frameShape) {
 			distinctKeys = append(distinctKeys, k)
 		}
 	}
+	if !big && len(distinctKeys) > 0 && r.Chance(1, 5) {
+		return genInterleaved(r, spec, distinctKeys)
+	}
 	// which keys, how many series each
 	var order []uint32
 	switch m := r.Intn(12); {
@@ -331,6 +334,78 @@ func genFrame(r *prng.R, spec codecSpec, big bool) ([]mSeries, frameShape) {
 	if alMode == 2 && r.Bool() {
 		// chains presented out of order
 		prng.Shuffle(r, out)
+	}
+	return out, shape
+}
+
+// genInterleaved draws the frames in which the relative order of one channel's series
+// matters most: 13-300 series over 1-4 keys, keys interleaved (1,2,1,2,... or random), a
+// small pool of alignments used over and over (0 and a few non-zero values, sometimes
+// continued contiguously), short series with different data. Series of one key with equal
+// alignment are not contiguous (unless empty), so they cannot be merged and have to come
+// out in the order they went in.
+func genInterleaved(r *prng.R, spec codecSpec, distinctKeys []uint32) ([]mSeries, frameShape) {
+	shape := frameShape{Keys: "interleaved"}
+	keys := append([]uint32{}, distinctKeys...)
+	prng.Shuffle(r, keys)
+	keys = keys[:r.Range(1, min(4, len(keys)))]
+	n := r.Range(13, 60)
+	if r.Chance(1, 4) {
+		n = r.Range(61, 300)
+	}
+	roundRobin := r.Bool()
+	alMode := r.Intn(3) // 0: all zero, 1: small pool of repeated values, 2: pool + contiguous continuations
+	shape.Aligns = []string{"tie-zero", "tie-pool", "tie-pool+chain"}[alMode]
+	pool := []uint64{0}
+	for k := r.Range(1, 3); k > 0; k-- {
+		pool = append(pool, uint64(r.Intn(3))<<32|uint64(1+r.Intn(50)))
+	}
+	lenMode := r.Intn(3) // 0: 1..5, 1: equal, 2: with empties
+	shape.Lens = []string{"short-random", "short-equal", "short-with-empty"}[lenMode]
+	eqLen := 1 + r.Intn(4)
+	trMode := r.Intn(3)
+	shape.TRs = []string{"zero", "equal", "distinct"}[trMode]
+	eqStart := int64(r.U64() >> 2)
+	eqEnd := eqStart + int64(r.Intn(1_000_000))
+	next := map[uint32]uint64{}
+	out := make([]mSeries, 0, n)
+	for i := 0; i < n; i++ {
+		k := keys[i%len(keys)]
+		if !roundRobin {
+			k = prng.Pick(r, keys)
+		}
+		dt, _ := spec.dtype(k)
+		ln := eqLen
+		switch lenMode {
+		case 0:
+			ln = 1 + r.Intn(5)
+		case 2:
+			if r.Chance(1, 4) {
+				ln = 0
+			} else {
+				ln = 1 + r.Intn(4)
+			}
+		}
+		s := mSeries{Key: k, DT: dt, N: int64(ln), Data: genData(r, dt, ln)}
+		switch alMode {
+		case 1:
+			s.Align = prng.Pick(r, pool)
+		case 2:
+			if a, ok := next[k]; ok && r.Chance(1, 3) {
+				s.Align = a
+			} else {
+				s.Align = prng.Pick(r, pool)
+			}
+		}
+		next[k] = s.Align + uint64(ln)
+		switch trMode {
+		case 1:
+			s.Start, s.End = eqStart, eqEnd
+		case 2:
+			s.Start = int64(r.U64() >> 2)
+			s.End = s.Start + int64(r.Intn(1_000_000))
+		}
+		out = append(out, s)
 	}
 	return out, shape
 }
@@ -499,15 +574,70 @@ func mergeable(expected, decoded []mSeries, typeOK func(e, d string) bool) (ok, 
 	return ok, !ok && budget < 0
 }
 
+// decomposes reports whether the decoded series of one key, IN DECODED ORDER, are the
+// sequence seq cut into consecutive runs, each run merged: a run is alignment-contiguous
+// (every next member starts where the previous one ends), its data is the concatenation,
+// its time range the union, its alignment that of the first member. The only choice is
+// how many empty series a run swallows at its end, so a memo over (decoded index,
+// position in seq) decides it without any search budget.
+func decomposes(seq, decoded []mSeries, typeOK func(e, d string) bool) bool {
+	failed := map[[2]int]bool{}
+	var from func(di, i int) bool
+	from = func(di, i int) bool {
+		if di == len(decoded) {
+			return i == len(seq)
+		}
+		if i >= len(seq) || failed[[2]int{di, i}] {
+			return false
+		}
+		d := decoded[di]
+		pos, off, n := d.Align, 0, int64(0)
+		var start, end int64
+		for j := i; j < len(seq); j++ {
+			e := seq[j]
+			if e.Align != pos || !typeOK(e.DT, d.DT) || n+e.N > d.N || off+len(e.Data) > len(d.Data) ||
+				!bytes.Equal(d.Data[off:off+len(e.Data)], e.Data) {
+				break
+			}
+			if j == i {
+				start, end = e.Start, e.End
+			} else {
+				start, end = min(start, e.Start), max(end, e.End)
+			}
+			pos, off, n = pos+uint64(e.N), off+len(e.Data), n+e.N
+			if n == d.N && off == len(d.Data) && start == d.Start && end == d.End && from(di+1, j+1) {
+				return true
+			}
+		}
+		failed[[2]int{di, i}] = true
+		return false
+	}
+	return from(0, 0)
+}
+
+func stableByAlign(ss []mSeries) []mSeries {
+	out := append([]mSeries{}, ss...)
+	sort.SliceStable(out, func(i, j int) bool { return out[i].Align < out[j].Align })
+	return out
+}
+
 // compareFrames returns "" when decoded equals expected up to key order and merging of
 // alignment-contiguous series, else a short class of the difference and a description.
-// The fast path compares normal forms; when they differ the general matcher decides
-// (class "inconclusive" when its budget runs out).
+//
+// The statement fixes each channel's sample sequence. A channel's series may be presented
+// in any order in the source frame, so "the sequence" has two defensible readings and a
+// codec is accepted when it honours either one, for every key:
+//
+//	(a) canonical: the key's series in STABLE order of alignment - series with the same
+//	    alignment keep the order they had in the frame (this is what the codec documents:
+//	    it sorts by key and alignment);
+//	(b) literal: the key's series in the order they had in the frame.
+//
+// In both readings the decoded series of the key, in decoded order, must be exactly that
+// sequence with some runs of alignment-contiguous neighbours merged. Anything else - two
+// series of equal alignment swapped, descending order, a merge across a gap - is a
+// difference.
 func compareFrames(expected, decoded []mSeries, spec codecSpec) (class, what string) {
-	class, what = compareNormal(expected, decoded, spec)
-	if class == "" || class == "extra-key" {
-		return class, what
-	}
 	be, bd := map[uint32][]mSeries{}, map[uint32][]mSeries{}
 	for _, s := range expected {
 		be[s.Key] = append(be[s.Key], s)
@@ -515,19 +645,65 @@ func compareFrames(expected, decoded []mSeries, spec codecSpec) (class, what str
 	for _, s := range decoded {
 		bd[s.Key] = append(bd[s.Key], s)
 	}
-	for k, es := range be {
-		chT, _ := spec.dtype(k)
-		ok, exhausted := mergeable(es, bd[k], func(e, d string) bool {
-			return e == d || (isI64Pair(e, chT) && isI64Pair(d, chT))
-		})
-		if exhausted {
-			return "inconclusive", "merge matcher budget exhausted"
-		}
-		if !ok {
-			return class, what
+	for k := range bd {
+		if _, ok := be[k]; !ok {
+			return "extra-key", fmt.Sprintf("decoded frame has key %d that was not encoded", k)
 		}
 	}
+	keys := make([]uint32, 0, len(be))
+	for k := range be {
+		keys = append(keys, k)
+	}
+	sort.Slice(keys, func(i, j int) bool { return keys[i] < keys[j] })
+	for _, k := range keys {
+		es, ds := be[k], bd[k]
+		chT, _ := spec.dtype(k)
+		typeOK := func(e, d string) bool { return e == d || (isI64Pair(e, chT) && isI64Pair(d, chT)) }
+		if decomposes(stableByAlign(es), ds, typeOK) || decomposes(es, ds, typeOK) {
+			continue
+		}
+		// name the difference
+		single := func(ss []mSeries) []mSeries {
+			out := make([]mSeries, len(ss))
+			for i, s := range ss {
+				out[i] = s
+				out[i].Key = k
+			}
+			return out
+		}
+		class, what = compareNormal(single(es), single(ds), spec)
+		orderOnly := class == ""
+		if !orderOnly && len(es) <= 24 {
+			if ok, _ := mergeable(es, ds, typeOK); ok {
+				orderOnly = true
+			}
+		}
+		if orderOnly {
+			sorted := sort.SliceIsSorted(ds, func(i, j int) bool { return ds[i].Align < ds[j].Align })
+			if sorted {
+				return "same-alignment-order", fmt.Sprintf("key %d: the decoded series are the expected ones, but series with the same alignment changed their relative order: alignments/first bytes in: %s, out: %s", k, brief(stableByAlign(es)), brief(ds))
+			}
+			return "series-order", fmt.Sprintf("key %d: the decoded series are the expected ones in neither alignment order nor frame order: in: %s, out: %s", k, brief(es), brief(ds))
+		}
+		return class, what
+	}
 	return "", ""
+}
+
+func brief(ss []mSeries) string {
+	var sb strings.Builder
+	for i, s := range ss {
+		if i == 12 {
+			fmt.Fprintf(&sb, " ...(%d)", len(ss))
+			break
+		}
+		b := byte(0)
+		if len(s.Data) > 0 {
+			b = s.Data[len(s.Data)-1]
+		}
+		fmt.Fprintf(&sb, " %d/%d:%02x", s.Align, s.N, b)
+	}
+	return "[" + strings.TrimSpace(sb.String()) + "]"
 }
 
 func compareNormal(expected, decoded []mSeries, spec codecSpec) (class, what string) {
